@@ -115,11 +115,11 @@ Fixpoint rank_idx_loop (n : nat) (bits : Z) (max_bits : Z) (ranks idxs : list Z)
       rank_idx_loop k (bits - 1) max_bits ranks idxs
   end.
 
-Fixpoint fill_range (n : nat) (base : Z) (e : huf_entry) (dec : list huf_entry) : res (list huf_entry) :=
+(** write [e] into [n] consecutive entries starting at [base] (bounds are checked once by the caller) *)
+Fixpoint fill_range (n : nat) (base : Z) (e : huf_entry) (dec : list huf_entry) : list huf_entry :=
   match n with
-  | O => ROk dec
-  | S k => if Z.of_nat (length dec) <=? base then RPanic "index out of bounds"
-           else fill_range k (base + 1) e (upd dec (Z.to_nat base) e)
+  | O => dec
+  | S k => fill_range k (base + 1) e (upd dec (Z.to_nat base) e)
   end.
 
 Fixpoint assign_codes (bits : list Z) (symbol : Z) (max_bits : Z) (idxs : list Z) (dec : list huf_entry)
@@ -133,7 +133,8 @@ Fixpoint assign_codes (bits : list Z) (symbol : Z) (max_bits : Z) (idxs : list Z
         let base := nth_z idxs b in
         let len := 2 ^ (max_bits - b) in
         let idxs := upd idxs (Z.to_nat b) (base + len) in
-        let* dec := fill_range (Z.to_nat len) base {| h_sym := symbol mod 256; h_bits := b |} dec in
+        if 2 ^ max_bits <? base + len then RPanic "index out of bounds" else
+        let dec := fill_range (Z.to_nat len) base {| h_sym := symbol mod 256; h_bits := b |} dec in
         assign_codes t (symbol + 1) max_bits idxs dec
   end.
 
